@@ -273,6 +273,28 @@ impl<'a> Judge<'a> {
                 let on_hidden_close = if cl_open { c.ok(sig_verifies(self.m, &csig, &p.close.msg))? } else { false };
                 let on_hidden_state = if st_open { c.ok(sig_verifies(self.m, &tok, &p.state.msg))? } else { false };
                 if truth {
+                    // the signatures must verify on the agreed messages ONLY: not on a message in which two
+                    // slots are moved in opposite directions (a signature that binds only the sum of its
+                    // slots would), nor on one with a single slot changed
+                    for i in 0..5 {
+                        for jx in i..5 {
+                            for (which, sig, base) in [("closing-signature", &csig, &p.close.msg), ("pay-token", &tok, &p.state.msg)] {
+                                let mut m2 = base.clone();
+                                m2[i] += Scalar::one();
+                                if jx != i {
+                                    m2[jx] -= Scalar::one();
+                                }
+                                c.eval();
+                                if ps_verify_ref(&self.m.pk, &sig.0, &sig.1, &m2) {
+                                    c.violation(
+                                        &format!("C01 signature-verifies-on-other-message what={} slots={}{}", which, i, if jx != i { format!("+{}", jx) } else { String::new() }),
+                                        json!({"label": label, "agreed": agreed_json(self.a), "slot_plus_one": i, "slot_minus_one": if jx != i { Some(jx) } else { None }}),
+                                    );
+                                }
+                            }
+                        }
+                    }
+                    c.count("issued_signatures_checked_against_neighbouring_messages", 1);
                     // positive control: both signatures must verify on the agreed messages
                     if !(on_hidden_close && on_hidden_state) {
                         c.violation(
